@@ -9,7 +9,9 @@
 (***************************************************************************)
 EXTENDS Iface
 
-Ops == {"delete", "duplicate", "swap", "truncate", "insert", "flip"}
+Ops == {"delete", "duplicate", "swap", "truncate", "insert", "flip", "dropdefault", "rename"}
+\* "dropdefault" removes the two tokens '=' <default> (a default before a non-default is a validation error);
+\* "rename" replaces one token by the identifier Zzz (an undeclared name: constructor / typedef target mismatch)
 Stray == <<"{", "}", "(", ")", "<", ">", ";", ",", "=", "::", "*", "@", "&", "class", "foo", "7", "const", ":">>
 
 Flip(t) == CASE t = "(" -> ")" [] t = ")" -> "(" [] t = "{" -> "}" [] t = "}" -> "{"
@@ -25,6 +27,8 @@ ApplyCorrupt(toks, op, i, x) ==
     [] op = "truncate"  -> SubSeq(toks, 1, i - 1)
     [] op = "insert"    -> SubSeq(toks, 1, i - 1) \o <<Stray[x]>> \o SubSeq(toks, i, n)
     [] op = "flip"      -> [toks EXCEPT ![i] = Flip(@)]
+    [] op = "dropdefault" -> SubSeq(toks, 1, i - 1) \o SubSeq(toks, i + 2, n)
+    [] op = "rename"    -> [toks EXCEPT ![i] = "Zzz"]
 
 Applicable(toks, op, i, x) ==
   /\ op \in Ops
@@ -33,6 +37,7 @@ Applicable(toks, op, i, x) ==
   /\ (op # "insert") => x = 0
   /\ (op = "swap") => i < Len(toks)
   /\ (op = "flip") => Flip(toks[i]) # toks[i]
+  /\ (op = "dropdefault") => (i < Len(toks) /\ toks[i] = "=" /\ toks[i + 1] # "{")
 
 \* size laws of the fault model (checked by TLC on the module's ASSUME for a sample sequence)
 Sample == <<"class", "A", "{", "A", "(", "int", "x", ")", ";", "}", ";">>
@@ -45,4 +50,6 @@ ASSUME \A op \in Ops, i \in 1..12, x \in 0..Len(Stray) :
              [] op = "truncate" -> Len(c) = i - 1
              [] op = "insert" -> Len(c) = Len(Sample) + 1 /\ c[i] = Stray[x]
              [] op = "flip" -> Len(c) = Len(Sample) /\ c # Sample
+             [] op = "dropdefault" -> Len(c) = Len(Sample) - 2
+             [] op = "rename" -> Len(c) = Len(Sample) /\ c[i] = "Zzz"
 =============================================================================
